@@ -350,11 +350,11 @@ theorem inv_work_urh (c : Cfg) (ar aq : Nat) (s : S) (h : Inv c ar aq s) (hrun :
           rw [if_neg (show ¬ ({ s2 with perTry := false, urr := false } : S).cleaned = true from by simp [g_cl]),
             if_neg (show ¬ ({ s2 with perTry := false, urr := false } : S).upReset = true from by simp [g_ur])]
           have : peTail c { s2 with perTry := false, urr := false } false =
-              ({ ({ s2 with perTry := false, urr := false } : S) with setupRetry := false }, some .Retry) := by
+              ({ ({ s2 with perTry := false, urr := false } : S) with up := some none, setupRetry := false }, some .Retry) := by
             unfold peTail
             rw [if_neg (by simp [g_dr]), if_neg (by simp [g_dir]), if_pos (by simp [g_sr, g_up, h.k31 hrs])]
           rw [this]
-          show Inv c ar aq (reenter { ({ s2 with perTry := false, urr := false } : S) with setupRetry := false } .Retry)
+          show Inv c ar aq (reenter { ({ s2 with perTry := false, urr := false } : S) with up := some none, setupRetry := false } .Retry)
           apply tail_retry c ar aq _ hb2 g_run g_cl how
           · have := h.k3; simpa [K3, g_snd, g_cl, hcl] using this
           · have := h.k6; simpa [K6, g_dl, g_dr, hdr, g_cl, hcl] using this
